@@ -314,6 +314,19 @@ def build(tier, rng):
     host["catch_all_schemes"] = sorted(n for n, h in handlers.items() if is_catch_all(h))
     host["os_crypt_schemes"] = list(registry.get_supported_os_crypt_schemes())
     host["no_backend"] = sorted(n for n, h in handlers.items() if not usable(h))
+    # ---- import order must not matter: the shared os_crypt scheme list is used by hosts.py and apache.py
+    import subprocess
+    import sys as _sys
+
+    g = Group("import-order-independence", "get_supported_os_crypt_schemes (shared cache)", "fresh interpreters: passlib.hosts imported before / after passlib.apache; scheme lists of htpasswd_context and host_context must be identical")
+    prog = "import warnings; warnings.simplefilter('ignore')\n{first}\n{second}\nimport json, passlib.apache as a, passlib.hosts as h, passlib.registry as r\nprint(json.dumps([list(a.htpasswd_context.schemes()), list(h.host_context.schemes()) if hasattr(h, 'host_context') else [], list(r.get_supported_os_crypt_schemes())]))"
+    outs = []
+    for first, second in (("import passlib.apache", "import passlib.hosts; passlib.hosts.host_context.schemes() if hasattr(passlib.hosts, 'host_context') else None"), ("import passlib.hosts; passlib.hosts.host_context.schemes() if hasattr(passlib.hosts, 'host_context') else None", "import passlib.apache")):
+        o = subprocess.run([_sys.executable, "-c", prog.format(first=first, second=second)], capture_output=True, text=True, timeout=120)
+        g.case(first[:24])
+        outs.append(o.stdout.strip().splitlines()[-1] if o.stdout.strip() else "ERR " + o.stderr[-200:])
+    g.check(len(outs) == 2 and outs[0] == outs[1] and not outs[0].startswith("ERR"), "import-order:scheme-lists-differ", "scheme lists depend on whether passlib.hosts or passlib.apache is imported first", {"apache_first": outs[0][:300], "hosts_first": outs[1][:300] if len(outs) > 1 else None})
+    groups.append(done(g))
     return groups, sorted(set(skipped)), host
 
 
